@@ -5,12 +5,19 @@ From TV Require Import Model.DeLoc Proofs.DeLocBase Proofs.DeLocKeys Proofs.DeLo
 From TV Require Import Extract.Show.
 Require Import String.
 
-(* with source text: the error carries the span of the node (or key) it was raised at *)
+(* with source text: the error carries the span of the node (or key) it was raised at; the one
+   exception is the kind check of a Date / Time that is the very node de_loc was called on (nobody handed
+   it out, so nobody attached its span) *)
 Lemma de_located c t s e :
-  opt_overwrite c = false -> all_spans s = true -> de_loc c t s = LErr e ->
-  e_kind e <> KDtKind -> e_kind e <> KUnmodelled ->
+  opt_overwrite c = false -> all_spans s = true -> de_loc c t s = LErr e -> e_kind e <> KUnmodelled ->
+  (exists sp, e_span e = Some sp /\ locate s (e_at e) (e_onkey e) = Some (Some sp)) \/
+  (e_kind e = KDtKind /\ e_at e = [] /\ e_span e = None).
+Proof. apply span_with_text. Qed.
+
+Lemma de_located_handed_out c t s e :
+  opt_overwrite c = false -> all_spans s = true -> wrap (span_of s) (de_loc c t s) = LErr e -> e_kind e <> KUnmodelled ->
   exists sp, e_span e = Some sp /\ locate s (e_at e) (e_onkey e) = Some (Some sp).
-Proof. intros N A E K1 K2. exact (span_with_text c t s e N A E (conj K1 K2)). Qed.
+Proof. apply span_handed_out. Qed.
 
 (* without: no span, and the key path lists the keys next_value_seed went through *)
 Lemma de_keypath c t s e :
@@ -54,8 +61,8 @@ Lemma enum_span_ok :
 Proof. eexists. vm_compute. split; reflexivity. Qed.
 
 (* v = [1979-05-27, 1979-05-27T07:32:00Z] read as Vec<toml_datetime::Date>: the kind mismatch of the
-   second element is reported with the span of the whole array (Date::deserialize raises it after the
-   element's deserializer returned; ArraySeqAccess adds no span) *)
+   second element now carries that element's span (ArraySeqAccess::next_element_seed attaches it; before
+   the repair it was the span of the whole array, 4..38) *)
 Definition d_date : date := mkDate 1979 5 27.
 Definition dt_local_date : datetime := mkDT (Some d_date) None None.
 Definition dt_offset : datetime := mkDT (Some d_date) (Some (mkTime 7 32 0 0)) (Some OffZ).
@@ -65,10 +72,26 @@ Definition w_dates : stree :=
          NArr (Some (4, 38)%N) [NLeaf (Some (5, 15)%N) (VDatetime dt_local_date); NLeaf (Some (17, 37)%N) (VDatetime dt_offset)])].
 Definition t_vdate : ty := TStruct (S' "VD") [(S' "v", TSeq (TDatetime KDate))].
 
-Lemma date_kind_refuted :
-  exists t s e, all_spans s = true /\ de_loc cfg0 t s = LErr e /\ e_kind e = KDtKind /\
-                locate s (e_at e) (e_onkey e) = Some (Some (17, 37)%N) /\ e_span e = Some (4, 38)%N.
-Proof. exists t_vdate, w_dates. eexists. vm_compute. repeat split. Qed.
+Lemma date_kind_located :
+  exists e, all_spans w_dates = true /\ de_loc cfg0 t_vdate w_dates = LErr e /\ e_kind e = KDtKind /\
+            locate w_dates (e_at e) (e_onkey e) = Some (Some (17, 37)%N) /\ e_span e = Some (17, 37)%N.
+Proof. eexists. vm_compute. repeat split. Qed.
+
+(* e = { N = 07:32:00 } read as N(Date): the payload's span (newtype_variant_seed attaches it) *)
+Definition t_e3n : ty := TStruct (S' "SE3") [(S' "e", TEnum (S' "E3") [(S' "N", VNewtype (TDatetime KDate))])].
+Definition w_e3n : stree :=
+  NTab (Some (0, 21)%N)
+       [(S' "e", Some (0, 1)%N,
+         NTab (Some (4, 20)%N) [(S' "N", Some (6, 7)%N, NLeaf (Some (10, 18)%N) (VDatetime (mkDT None (Some (mkTime 7 32 0 0)) None)))])].
+Lemma date_kind_variant_located :
+  exists e, de_loc cfg0 t_e3n w_e3n = LErr e /\ e_kind e = KDtKind /\ e_span e = Some (10, 18)%N.
+Proof. eexists. vm_compute. repeat split. Qed.
+
+(* the remaining corner: a Date that is itself the node handed to de_loc has nobody to attach its span *)
+Lemma date_kind_root :
+  exists e, de_loc cfg0 (TDatetime KDate) (NLeaf (Some (0, 20)%N) (VDatetime dt_offset)) = LErr e /\
+            e_kind e = KDtKind /\ e_at e = [] /\ e_span e = None.
+Proof. eexists. vm_compute. repeat split. Qed.
 
 (* the seeded change "deserialize_option sets the span unconditionally": t = { b = "x", c = "y" } read as
    Option<Inner> — the plumbing of the repository points at "x", the mutated one at the whole table *)
